@@ -199,6 +199,13 @@ func (u *memUniverse) genOp(rng *RNG, writers *[]string) string {
 	case 39, 40, 41, 42:
 		o0 := int64(rng.Intn(8)) - 1
 		o1 := int64(rng.Intn(9)) - 1
+		if rng.Chance(1, 2) {
+			// offsets around the END of one of the universe's blobs (or manifests stored as blobs), whichever digest is
+			// asked for: len-1, len, len+1 and far beyond, on both sides
+			n := int64(len(pick(rng, u.blobs)))
+			around := []int64{n - 1, n, n + 1, n + 7, 1 << 40, -1, 0}
+			o0, o1 = pick(rng, around), pick(rng, around)
+		}
 		return fmt.Sprintf("mem getblobrange %s %s %d %d", tok(repo), tok(d), o0, o1)
 	case 43, 44, 45, 46, 47:
 		return fmt.Sprintf("mem getmanifest %s %s", tok(repo), tok(d))
